@@ -19,6 +19,8 @@ def queries(tier):
                                 params=[n, op, qq + 2], mode='sat', fp='uf', defines=['-DIR2C_FP_HAVOC'], checks='full',
                                 unwind=max(40, (1 << n) * 2 + 8), witness=True, timeout=300, all_entries=ENTRIES,
                                 desc='%s at index %d of %d qubits keeps 2^n amplitudes and never touches memory outside them' % (opname, qq, n)))
+    import E2_common
+    qs += E2_common.book_alloc_queries(tier)
     return qs
 
 
@@ -26,7 +28,7 @@ META = dict(
     level_text='one operation from an arbitrary state (inductive step): allocateQubit doubles the vector keeping the old amplitudes; '
                'measure/reset/gates keep the length and stay in bounds; unit norm is not decided here (follows from C01/C02/C04 on paper)',
     assumptions=['FP abstracted (uninterpreted / havoc for the memory queries); operator new never fails',
-                 'the evaluator-side handle bookkeeping (free list, index reuse) is checked by the C03 evaluator queries when present'],
+                 'evaluator-side handle bookkeeping (free list, index reuse after object destruction) is one step from enumerated released sets with symbolic flags'],
     bounds={'n_max_quick': 3, 'n_max_thorough': 4},
     outside=['unit norm within tolerance (rounding)', 'P(outcome) ~ 1e-16 corner of measure/reset (zero vector), see DESIGN.md',
              'program-level aliasing of qubit values'],
